@@ -52,9 +52,9 @@ def _bounds(rng):
   b = str(rng.choice(["none", "min", "max", "both", "both_negative"]))
   omin = omax = None
   if b == "min":
-    omin = float(rng.choice([-1.0, 0.0, 0.5, -30.0]))
+    omin = float(rng.choice([-1.0, 0.0, 0.5, -30.0, 4.0]))
   elif b == "max":
-    omax = float(rng.choice([0.5, 1.0, 3.0, 100.0]))
+    omax = float(rng.choice([0.5, 1.0, 3.0, 100.0, -2.0]))
   elif b == "both":
     omin = float(rng.choice([0.0, 0.5, -1.0]))
     omax = omin + float(rng.choice([0.5, 1.0, 10.0]))
@@ -93,7 +93,8 @@ def gen_cases(ctx):
       yield {"kind": kind, "kp": [float(v) for v in kp], "units": units, "mono": mono, "conv": 0, "bounds": b, "omin": omin, "omax": omax,
              "clamp_min": bool(mono and omin is not None and rng.rand() < .3), "clamp_max": bool(mono and omax is not None and rng.rand() < .3),
              "init": str(rng.choice(["equal_heights", "equal_slopes"])), "cyclic": bool(mono == 0 and rng.rand() < .2), "seed": seed,
-             "kp_type": "learned_interior" if rng.rand() < .35 else "fixed"}
+             "kp_type": "learned_interior" if rng.rand() < .35 else "fixed", "impute": bool(rng.rand() < .4),
+             "via_config": bool(rng.rand() < .3)}
       # is_cyclic with equal_slopes cannot be built at all (TypeError in the initializer): that is C16's known finding KF-C16-c
     elif kind == "kfl":
       dims = int(rng.randint(1, 4))
@@ -144,6 +145,9 @@ def _run_lattice(ctx, case, st):
     layer = tfl.layers.Lattice(lattice_sizes=sizes, units=units, monotonicities=mono_arg,
                                unimodalities=unimod if any(unimod) else None,
                                output_min=case["omin"], output_max=case["omax"], kernel_initializer=case["init"])
+    if case["seed"] % 3 == 0:
+      layer = tfl.layers.Lattice.from_config(layer.get_config())     # re-created from its own config, then built afresh
+      ctx.cls("lattice:via_config")
     layer.build((None, rank) if units == 1 else (None, units, rank))
   except ValueError as e:
     ctx.note("rejected:lattice:" + str(e)[:60])
@@ -227,7 +231,12 @@ def _run_pwl(ctx, case, st):
   try:
     layer = tfl.layers.PWLCalibration(input_keypoints=kp, units=units, monotonicity=mono, output_min=case["omin"], output_max=case["omax"],
                                       clamp_min=case["clamp_min"], clamp_max=case["clamp_max"], kernel_initializer=case["init"],
-                                      is_cyclic=case["cyclic"], input_keypoints_type=case.get("kp_type", "fixed"))
+                                      is_cyclic=case["cyclic"], input_keypoints_type=case.get("kp_type", "fixed"),
+                                      **({"impute_missing": True, "missing_input_value": -1000.0} if case.get("impute") else {}))
+    if case.get("via_config"):
+      # a layer re-created from its own config (clone_model, model_from_json) is built by the same initializers
+      layer = tfl.layers.PWLCalibration.from_config(layer.get_config())
+      ctx.cls("pwl:via_config")
     layer.build((None, 1))
   except ValueError as e:
     ctx.note("rejected:pwl:" + str(e)[:60])
@@ -288,6 +297,15 @@ def _run_pwl(ctx, case, st):
     ctx.check("PWLCalibration.init/function-shape", e <= tf_,
               "fresh %s layer is off its %s function by %.3g (tol %.3g) in some unit" % (case.get("kp_type", "fixed"), case["init"], e, tf_),
               info={"x": xs.tolist(), "want": want.tolist(), "got": y.T.tolist()}, ratio=e / tf_)
+  if case.get("impute"):
+    # the learned value substituted for missing inputs is a weight with the same output bounds
+    mo = layer.missing_output.numpy().astype(np.float64)
+    okm = (case["omin"] is None or mo.min() >= case["omin"] - tol) and (case["omax"] is None or mo.max() <= case["omax"] + tol)
+    moc = layer.missing_output.constraint(layer.missing_output).numpy() if layer.missing_output.constraint is not None else mo
+    okm = okm and float(np.abs(moc - mo).max()) <= tol
+    ctx.cls("pwl:impute_missing")
+    ctx.check("PWLCalibration.init/missing-output-in-bounds", bool(okm),
+              "fresh layer's learned missing output %s is outside [%s, %s] (or moved by its own constraint)" % (mo.ravel().tolist(), case["omin"], case["omax"]))
   r = _assert_ok(ctx, "PWLCalibration.init/assert_constraints", layer, "PWLCalibration", scale=core.scale_of(outs, [imin, imax]))
   if r is not True:
     ctx.check("PWLCalibration.init/assert_constraints", False, "fresh PWLCalibration fails its own assert_constraints(): %s" % r)
